@@ -346,6 +346,9 @@ class Parameterizer:
 
         if isinstance(value, str) and value == "*":
             return False
+        if isinstance(value, Node):
+            # a query-builder object wrapped as a value is part of the statement text, not data for the driver
+            return False
         return True
 
     def create_param(self, value: Any) -> Parameter:
